@@ -17,6 +17,11 @@ func main() {
 		fmt.Fprintln(os.Stderr, "usage: xv <property> <quick|thorough> | replay <file> | selftest")
 		os.Exit(2)
 	}
+	if os.Args[1] != "replay" {
+		if _, isCheck := props.Registry[os.Args[1]]; !isCheck {
+			run.StartWatchdog(nil, os.Args[1]) // helper process
+		}
+	}
 	switch os.Args[1] {
 	case "c10-stream":
 		n, _ := strconv.Atoi(os.Args[3])
@@ -51,6 +56,7 @@ func main() {
 		pprof.StartCPUProfile(f)
 	}
 	c := run.New(id, tier, p.Level)
+	run.StartWatchdog(c, id)
 	p.Run(c)
 	pprof.StopCPUProfile()
 	os.Exit(c.Finish())
